@@ -3601,3 +3601,7 @@ mod tests {
         }
     }
 }
+
+#[cfg(any(kani, verif_replay))]
+#[path = "/verif/kani/subscriptions.rs"]
+pub(crate) mod verif_kani_subscriptions;
